@@ -116,7 +116,8 @@ def run_property(prop, cfg, tier, seed, jobs, work, rebaseline=False, only=None)
         if bad:
             raise Undecided('assumption scan: constructs outside the whitelist: %s' % bad)
         log('-- bundle %s: %d units, %d lines generated, profile=%s' % (key, len(units), br.text.count('\n'), ','.join(profile) if profile else 'all'))
-        res = br.verify(units, jobs, seed)
+        # the deciding run is deterministic: VERIF_SEED seeds the hunter, the bounded stand-ins and the stability runs only
+        res = br.verify(units, jobs, None)
         for u in br.g.units:
             if not u['stubbed']:
                 fn_under_contract[u['fn']] = {'fn': u['fn'], 'where': '%s:%d' % (u['file'], u['line']), 'sha256': u['sha256'][:16], 'has_contract': u['has_contract']}
@@ -151,7 +152,7 @@ def run_property(prop, cfg, tier, seed, jobs, work, rebaseline=False, only=None)
             def one_canary(c):
                 cb = dict(b); cb['_canary_targets'] = {c}
                 cr = BundleRun(b['name'] + '_canary_' + re.sub(r'\W', '_', c), b['build'], profile, cb, work, canary=True)
-                return c, V.run_unit(cr.path, work, c, b.get('canary_rlimit', 10), seed=seed)
+                return c, V.run_unit(cr.path, work, c, b.get('canary_rlimit', 10), seed=None)
             with ThreadPoolExecutor(max_workers=jobs) as ex:
                 for c, r_ in ex.map(one_canary, ctargets):
                     cres[c] = r_
@@ -184,7 +185,7 @@ def run_property(prop, cfg, tier, seed, jobs, work, rebaseline=False, only=None)
                     return name, None
                 pth = os.path.join(work, '%s__lemcanary_%s.rs' % (key, name))
                 open(pth, 'w').write(txt)
-                return name, V.run_unit(pth, work, name, 10, seed=seed)
+                return name, V.run_unit(pth, work, name, 10, seed=None)
             from concurrent.futures import ThreadPoolExecutor as _TPE
             with _TPE(max_workers=jobs) as ex:
                 for name, r_ in ex.map(one_lemma_canary, lem):
